@@ -57,7 +57,7 @@ struct BevS {
   FCtx ctx;
 };
 struct BufS { struct evbuffer *b = nullptr; int st = ST_NONE; bool deferred = false; int cbs = 0, in_cb = 0; bool sched = false; /* a deferred run may be scheduled */ bool tolerate = false; };
-struct LevS { struct evconnlistener *l = nullptr; int st = ST_NONE; bool cof = false; int fd = -1; int cbs = 0, in_cb = 0; int clients[4]; int nclients = 0; };
+struct LevS { struct evconnlistener *l = nullptr; int st = ST_NONE; bool cof = false; int fd = -1; ino_t ino = 0; int cbs = 0, errcbs = 0, in_cb = 0; int clients[4]; int nclients = 0; bool closed_seen = false; };
 
 struct World {
   Src *s; struct event_base *base = nullptr; int npri = 1;
@@ -76,6 +76,7 @@ const char *K_DEFER_LEAK = "C10/bev-with-deferred-callback-leaks-at-base-free";
 const char *K_BEVBUF = "C10/bev-evbuffer-callback-after-free";
 const char *K_REARM = "C10/bev-event-added-after-free";
 const char *K_UAF_CANCEL = "asan:heap-use-after-free@event_base_cancel_single_callback_";
+const char *K_UAF_SIGLOOP = "asan:heap-use-after-free@event_signal_closure";
 int64_t g_expected_leak = 0;   // library blocks deliberately left behind by event_base_free_nofinalize (documented behaviour)
 bool g_in_case = false;
 char g_sockname[64]; int g_socknamelen;
@@ -98,6 +99,7 @@ ino_t ino_of(int fd) { struct stat st; if (fstat(fd, &st)) return 0; return st.s
 bool same_open(int fd, ino_t ino) { struct stat st; return fstat(fd, &st) == 0 && st.st_ino == ino; }
 
 void cb_action(int kind, int idx);
+void reconfigure(int kind, int idx);
 bool fully_released(int i);
 bool release(int kind, int idx, int mode, int ctx_kind, int ctx_idx);
 void activate(int kind, int idx);
@@ -153,6 +155,9 @@ void do_ev_add(int i, Src &s) {
 }
 void activate_ev(int i, Src &s) {
   EvS &e = W->ev[i]; if (e.st != ST_ALIVE) return;
+  // known finding: event_active() on a signal event from inside its own callback forgets the running ncalls loop (ev_pncalls = NULL);
+  // an event_del/event_free later in that callback no longer stops the loop, which then writes into the freed event
+  if (e.kind == EK_SIGNAL && e.in_cb && verif_known(K_UAF_SIGLOOP)) { verif_known_skipped(K_UAF_SIGLOOP); return; }
   short res = e.kind == EK_SIGNAL ? EV_SIGNAL : e.kind == EK_PIPE_W ? EV_WRITE : e.kind == EK_PIPE_R ? EV_READ : EV_TIMEOUT;
   int n = 1 + s.below(3); TR("active ev%d ncalls=%d", i, n); event_active(e.ev, res, (short)n);
 }
@@ -287,7 +292,8 @@ bool release_bev(int i) {
   bufferevent_free(v.bev);
   // freeing a filter re-enables reading on its underlying bufferevent, freeing a pair end talks to its partner: either may schedule a
   // deferred callback (which holds a reference) on a bufferevent that is still around
-  for (auto &x : W->bev) if (&x != &v && x.st == ST_ALIVE) W->defer_risk = true;
+  // (only a bufferevent that defers its callbacks can have one scheduled by this: BEV_OPT_DEFER_CALLBACKS, and every pair end)
+  for (auto &x : W->bev) if (&x != &v && x.st == ST_ALIVE && (x.type <= 1 || (x.opts & BEV_OPT_DEFER_CALLBACKS))) W->defer_risk = true;
   return true;
 }
 void activate_bev(int i, Src &s) {
@@ -354,17 +360,38 @@ void lev_cb(struct evconnlistener *l, evutil_socket_t fd, struct sockaddr *, int
   CHECK(!W->base_freeing && !W->base_freed, "C10/callback-during-base-free", "listener callback ran from event_base_free");
   L.cbs++; W->total_cbs++; L.in_cb++; cb_action(K_LEV, 0); L.in_cb--;
 }
+void lev_errcb(struct evconnlistener *l, void *) {
+  LevS &L = W->lev;
+  TR("  listener error cb st=%d", L.st);
+  CHECK(L.st == ST_ALIVE, "C10/listener-callback-after-free", "listener error callback ran after evconnlistener_free returned");
+  CHECK(!W->base_freeing && !W->base_freed, "C10/callback-during-base-free", "listener error callback ran from event_base_free");
+  CHECK(l == L.l, "C10/listener-callback-wrong-object", "listener error callback got another pointer");
+  L.errcbs++; W->total_cbs++; L.in_cb++; verif_class("listener_error_cb"); cb_action(K_LEV, 0); L.in_cb--;
+}
+// evconnlistener_free "deallocates" the listener: once the call has returned and no callback of the listener is on the stack any more
+// (single thread: nobody else holds a reference) the listener is finalized, i.e. its socket is closed iff LEV_OPT_CLOSE_ON_FREE
+void lev_check_finalized(const char *where) {
+  LevS &L = W->lev; if (L.st != ST_DEAD || L.in_cb || L.closed_seen) return;
+  bool open = same_open(L.fd, L.ino);
+  if (L.cof) { CHECK(!open, "C10/listener-not-finalized-after-free", "LEV_OPT_CLOSE_ON_FREE listener freed (and its callbacks unwound), but its socket fd %d is still open %s", L.fd, where); L.closed_seen = true; }
+  else CHECK(open, "C10/fd-closed-without-close-on-free", "listener socket fd %d closed %s although LEV_OPT_CLOSE_ON_FREE was not set", L.fd, where);
+}
 void do_mk_lev(Src &s) {
   LevS &L = W->lev; if (L.st != ST_NONE) return;
   struct sockaddr_un sun; memset(&sun, 0, sizeof sun); sun.sun_family = AF_UNIX; memcpy(sun.sun_path + 1, g_sockname, g_socknamelen);
   L.cof = s.flag(); unsigned fl = (L.cof ? LEV_OPT_CLOSE_ON_FREE : 0) | (s.flag() ? LEV_OPT_THREADSAFE : 0) | (s.chance(1, 4) ? LEV_OPT_DISABLED : 0);
   L.l = evconnlistener_new_bind(W->base, lev_cb, nullptr, fl, 4, (struct sockaddr *)&sun, (int)(offsetof(struct sockaddr_un, sun_path) + 1 + g_socknamelen));
   TR("listener_new_bind flags=0x%x -> %p", fl, (void *)(L.l ? (void *)1 : nullptr)); CHECK(L.l != nullptr, "C10/ctor-failed", "evconnlistener_new_bind NULL errno=%d", errno);
-  L.fd = evconnlistener_get_fd(L.l); L.st = ST_ALIVE;
+  L.fd = evconnlistener_get_fd(L.l); L.ino = ino_of(L.fd); L.st = ST_ALIVE;
+  evconnlistener_set_error_cb(L.l, lev_errcb);
 }
 void activate_lev(Src &s) {
   LevS &L = W->lev; if (L.st != ST_ALIVE) return;
-  if (s.chance(1, 4)) { TR("listener enable"); evconnlistener_enable(L.l); return; }
+  int h = s.below(4);
+  if (h == 0) { TR("listener enable"); evconnlistener_enable(L.l); return; }
+  if (h == 1) {   // fault point: the next accept() on the listening socket fails (fd / memory exhaustion -> error callback; ECONNABORTED -> retried silently)
+    static const int E[3] = {EMFILE, ENOMEM, ECONNABORTED}; int e = E[s.below(3)];
+    TR("next accept fails errno=%d", e); sim_script(SYS_ACCEPT, L.fd, ACT_FAIL, e); verif_class("accept_fault_scripted"); }
   if (L.nclients >= 4) return;
   int c = socket(AF_UNIX, SOCK_STREAM | SOCK_NONBLOCK | SOCK_CLOEXEC, 0); if (c < 0) abort();
   struct sockaddr_un sun; memset(&sun, 0, sizeof sun); sun.sun_family = AF_UNIX; memcpy(sun.sun_path + 1, g_sockname, g_socknamelen);
@@ -373,7 +400,33 @@ void activate_lev(Src &s) {
 }
 bool release_lev() {
   LevS &L = W->lev; if (L.st != ST_ALIVE) return false;
-  TR("evconnlistener_free"); L.st = ST_DEAD; evconnlistener_free(L.l); L.l = nullptr; return true;
+  TR("evconnlistener_free%s", L.in_cb ? " (inside its own callback)" : ""); L.st = ST_DEAD; evconnlistener_free(L.l); L.l = nullptr;
+  lev_check_finalized("after evconnlistener_free returned"); return true;
+}
+// ------------------------------------------------------------------ reconfiguration (stop / restart / re-point a live object without releasing it)
+void reconf_lev(Src &s) {
+  LevS &L = W->lev; if (L.st != ST_ALIVE) return;
+  int h = s.below(8);
+  switch (h) {
+    case 0: case 1: case 2: { int r = evconnlistener_disable(L.l); TR("evconnlistener_disable -> %d", r); CHECK(r == 0, "C10/reconf-failed", "evconnlistener_disable=%d", r); break; }
+    case 3: case 4: { int r = evconnlistener_enable(L.l); TR("evconnlistener_enable -> %d", r); CHECK(r == 0, "C10/reconf-failed", "evconnlistener_enable=%d", r); break; }
+    case 5: TR("evconnlistener_set_cb(cb)"); evconnlistener_set_cb(L.l, lev_cb, nullptr); break;
+    case 6: TR("evconnlistener_set_cb(NULL)"); evconnlistener_set_cb(L.l, nullptr, nullptr); break;
+    default: { bool on = s.flag(); TR("evconnlistener_set_error_cb(%s)", on ? "cb" : "NULL"); evconnlistener_set_error_cb(L.l, on ? lev_errcb : nullptr); break; }
+  }
+}
+void reconf_ev(int i, Src &s) {
+  EvS &e = W->ev[i]; if (e.st != ST_ALIVE) return;
+  if (s.below(3)) { TR("event_del(ev%d)", i); int r = event_del(e.ev); CHECK(r == 0, "C10/reconf-failed", "event_del(ev%d)=%d", i, r); }
+  else do_ev_add(i, s);
+}
+void reconf_bev(int i, Src &s) {
+  BevS &v = W->bev[i]; if (v.st != ST_ALIVE || v.released) return;
+  if (v.over >= 0 || v.in_bufcb) return;   // driven through its filter only; no re-entrant buffer traffic from the buffer's own callback
+  short what = (short)(1 + s.below(3)) * EV_READ;   // EV_READ=2, EV_WRITE=4, both=6
+  W->defer_risk = true;
+  if (s.below(3)) { TR("bufferevent_disable(bev%d, 0x%x)", i, what); bufferevent_disable(v.bev, what); }
+  else { TR("bufferevent_enable(bev%d, 0x%x)", i, what); bufferevent_enable(v.bev, what); }
 }
 
 // ------------------------------------------------------------------ generic
@@ -403,21 +456,42 @@ void activate(int kind, int idx) {
     default: break;
   }
 }
+void reconfigure(int kind, int idx) {
+  Src &s = *W->s;
+  switch (kind) {
+    case K_EV: reconf_ev(idx, s); break;
+    case K_BEV: reconf_bev(idx, s); break;
+    case K_LEV: reconf_lev(s); break;
+    default: break;
+  }
+}
+int draw_reconf_obj(Src &s, int *idx) {
+  int k = s.below(3); *idx = 0;
+  if (k == 0) { *idx = s.below(NEV); return K_EV; }
+  if (k == 1) { *idx = s.below(NBEV); return K_BEV; }
+  return K_LEV;
+}
 int draw_obj(Src &s, int *idx) {
   int k = s.below(4);
   *idx = k == K_EV ? s.below(NEV) : k == K_BEV ? s.below(NBEV) : k == K_BUF ? s.below(NBUF) : 0;
   return k;
 }
-// what a user callback may do: nothing (most of the time), release itself, release another object, activate something
+// what a user callback may do: nothing (half of the time), or a sequence of up to 3 steps, each one of: reconfigure (stop / restart) itself or
+// another object, release itself, release another object, activate something.  "disable, then free" in one callback is the usual shutdown idiom.
 void cb_action(int kind, int idx) {
   if (W->in_fin || W->acts_left <= 0 || W->base_freeing) return;
   Src &s = *W->s;
-  int a = s.below(8); if (a < 5) return;
-  W->acts_left--; W->depth++;
-  if (a == 5) { if (kind != K_ONCE) release(kind, idx, s.below(2), kind, idx); }
-  else if (a == 6) { int j, k = draw_obj(s, &j); release(k, j, s.below(2), kind, idx); }
-  else if (W->depth <= 2) { int j, k = draw_obj(s, &j); activate(k, j); }
-  W->depth--;
+  int rk = K_NONE, rj = -1, steps = 0;   // the object reconfigured earlier in this callback
+  for (int n = 0; n < 3 && W->acts_left > 0; n++) {
+    int a = s.below(8); if (a < 4) break;
+    W->acts_left--; W->depth++; steps++;
+    if (a == 4) { int j = idx, k = kind; if (kind == K_ONCE || kind == K_BUF || !s.flag()) k = draw_reconf_obj(s, &j); reconfigure(k, j); rk = k; rj = j; }
+    else if (a == 5) { if (kind != K_ONCE && release(kind, idx, s.below(2), kind, idx) && rk == kind && (rj == idx || kind == K_LEV)) verif_class("reconfigure_then_release_in_same_cb"); }
+    else if (a == 6) { int j, k = draw_obj(s, &j); if (release(k, j, s.below(2), kind, idx) && rk == k && (rj == j || k == K_LEV)) verif_class("reconfigure_then_release_in_same_cb"); }
+    else if (W->depth <= 2) { int j, k = draw_obj(s, &j); activate(k, j); }
+    W->depth--;
+  }
+  if (steps > 1) verif_class("multi_step_cb");
 }
 
 int64_t wait_hook(const struct sim_wait_info *wi, void *) {
@@ -436,6 +510,7 @@ void turn(int flags) {
   int r = event_base_loop(W->base, flags);
   TR("turn -> %d capped=%d", r, W->turn_capped);
   CHECK(r >= 0, "C10/loop-error", "event_base_loop=%d", r);
+  lev_check_finalized("after the loop turn in which it was freed");
   if (W->turn_capped || flags != EVLOOP_NONBLOCK) { W->defer_risk = true; return; }
   W->defer_risk = false;
   // a complete non-blocking turn runs every callback that was active, finalizers included
@@ -513,6 +588,7 @@ extern "C" int LLVMFuzzerTestOneInput(const uint8_t *data, size_t size) {
       case 15: { int j, k = draw_obj(s, &j); release(k, j, s.below(2), K_NONE, -1); break; }
       case 16: { int i = s.below(NEV); if (w.ev[i].st == ST_ALIVE) { TR("event_del(ev%d)", i); event_del(w.ev[i].ev); } break; }
       case 17: turn(EVLOOP_ONCE); break;
+      case 19: { int j, k = draw_reconf_obj(s, &j); reconfigure(k, j); break; }
       default: turn(EVLOOP_NONBLOCK); break;
     }
   }
@@ -539,6 +615,7 @@ extern "C" int LLVMFuzzerTestOneInput(const uint8_t *data, size_t size) {
   for (auto &e : w.ev) { if (e.st == ST_FINALIZING) pend_fin++; if (e.st == ST_ALIVE) pend_ev++; }
   for (auto &o : w.once) if (o.st == 1) pend_once++;
   int pend_filter = 0; for (auto &v : w.bev) if (v.st == ST_ALIVE && v.type == 3 && v.ctx.freed == 0) pend_filter++;
+  lev_check_finalized("before event_base_free");
   int64_t live_before_free = sim_mem_live_blocks;
   TR("%s (pending: %d event finalizers, %d events, %d once, %d unfinalized filters; live blocks %lld)", w.nofin ? "event_base_free_nofinalize" : "event_base_free", pend_fin, pend_ev, pend_once, pend_filter, (long long)(live_before_free - live0));
   w.base_freeing = true;
@@ -572,6 +649,7 @@ extern "C" int LLVMFuzzerTestOneInput(const uint8_t *data, size_t size) {
   // released after the base: non-deferred evbuffers
   for (int j = 0; j < NBUF; j++) if (w.buf[j].st == ST_ALIVE) { TR("evbuffer_free(buf%d) after base free", j); w.buf[j].st = ST_DEAD; evbuffer_free(w.buf[j].b); }
   if (w.lev.fd >= 0 && !w.lev.cof) close(w.lev.fd);
+  else if (w.lev.fd >= 0 && !w.dirty) CHECK(w.lev.closed_seen || !same_open(w.lev.fd, w.lev.ino), "C10/listener-not-finalized-after-free", "LEV_OPT_CLOSE_ON_FREE listener: socket fd %d still open after event_base_free", w.lev.fd);
   for (int k = 0; k < w.lev.nclients; k++) close(w.lev.clients[k]);
   for (auto &p : w.pipes) if (p[0] >= 0) { close(p[0]); close(p[1]); }
 
